@@ -53,14 +53,14 @@ type c05Op struct {
 	TTLms      int64    `json:"ttl_ms,omitempty"`
 	// TTLZero: the TTL option is given with a duration below one millisecond (TTLSubNS nanoseconds, possibly 0):
 	// "expires at once" is not "never expires". TTLSubNS is also added to a non-zero TTLms.
-	TTLZero  bool  `json:"ttl_zero,omitempty"`
-	TTLSubNS int64 `json:"ttl_sub_ns,omitempty"`
-	HasTS      bool     `json:"has_ts,omitempty"`
-	TS         uint64   `json:"ts,omitempty"`
-	OneVersion bool     `json:"one_version,omitempty"`
-	CasFamily  string   `json:"cas_family,omitempty"`
-	CasQual    string   `json:"cas_qual,omitempty"`
-	CasValue   evid.B   `json:"cas_value,omitempty"`
+	TTLZero    bool   `json:"ttl_zero,omitempty"`
+	TTLSubNS   int64  `json:"ttl_sub_ns,omitempty"`
+	HasTS      bool   `json:"has_ts,omitempty"`
+	TS         uint64 `json:"ts,omitempty"`
+	OneVersion bool   `json:"one_version,omitempty"`
+	CasFamily  string `json:"cas_family,omitempty"`
+	CasQual    string `json:"cas_qual,omitempty"`
+	CasValue   evid.B `json:"cas_value,omitempty"`
 	// scans
 	Stop       evid.B `json:"stop,omitempty"`
 	Reversed   bool   `json:"reversed,omitempty"`
